@@ -36,6 +36,12 @@ func runC17(c *Ctx) {
 		c.fail("C17.anchor", "pkg/gossip state types", token.NoPos, "unresolved:"+g.missing)
 		return
 	}
+	c17All(c, g)
+}
+
+// c17All: the local-writer rules (also run by C02, C03 and C04, whose
+// statements about compaction and deletion markers rest on them).
+func c17All(c *Ctx, g *gossipAnchors) {
 	c.floor("C17.R1", 5)
 	c.floor("C17.R2", 3)
 	c.floor("C17.R3", 4)
